@@ -100,6 +100,15 @@ def laneOrigin : List String → String
           s!"{encodeList (lines.mergeSort fun a b => Req.BStr.le a b)} {Wire.showBlob v.body} {rest.length}"
   | _ => "bad-op"
 
+/-- `c01chunks <body> <write sizes>`: `chunkedWriter` output for the given writes (zero-length
+writes emit nothing; what is left after the listed sizes is one last write) + final CRLF. -/
+def laneChunks : List String → String
+  | [body, sizes] =>
+    match Wire.decodeBody body, decodeNatList sizes with
+    | some b, some ss => "ok " ++ Wire.showBlob (Req.H1.chunkedBody b ss)
+    | _, _ => "bad-op"
+  | _ => "bad-op"
+
 /-- `c01parse <raw>`: `url.Parse` + `String()` + `RequestURI()`. -/
 def laneParse : List String → String
   | [raw] =>
@@ -223,6 +232,7 @@ def lanes : List (String × (List String → String)) := [
   ("c01pipe", lanePipe),
   ("c01h1", laneH1),
   ("c01url", laneUrl),
+  ("c01chunks", laneChunks),
   ("c01origin", laneOrigin),
   ("c01valid", laneValid),
   ("c01ruri", laneRuri),
